@@ -267,10 +267,9 @@ def who(ctx):
                    "" if ok else "non-const use (%s) in %s" % (acc, f.name), fn=f.label, inst=f.qname)
 
 
-def handler_rules(ctx):
+def handler_rules(ctx, rid="C03.handlers"):
     """the catch handlers of modify write only through the pointer that is being applied in their try block
     (the copy readers are not directed to at that point)"""
-    rid = "C03.handlers"
     ctx.rule(rid, "exception handlers of modify never write the copy readers are currently directed to", floor=4)
     for f in lr_functions(ctx, "modify"):
         for ts in [s for s in f.stmts.values() if s["k"] == "CXXTryStmt"]:
